@@ -15,6 +15,27 @@ import (
 )
 
 func VerifH_C08_view() {
+	if verifSymbolic() {
+		verifViewOnce(0)
+		return
+	}
+	// native replay: two ways of forcing "a request observes the muxer in the middle of a rotation" are tried, each
+	// on a fresh muxer fed with the same model values; the first one that breaks an assertion ends the replay.
+	for mode := 1; mode <= 2; mode++ {
+		verifNativeRestart()
+		verifViewOnce(mode)
+		if verifNativeFailed() {
+			return
+		}
+	}
+}
+
+// verifViewOnce: mode 0 = symbolic (request thread + symbolic preemption inside the rotation);
+// mode 1 = native, request parked at the entry of the playlist generator, writer parked at the scheduling point inside
+// rotateSegments (reachable only if the generator runs without the muxer lock);
+// mode 2 = native, writer parked inside the OnEncodeError callback of the rotation, request issued meanwhile
+// (it can complete only if the callback is invoked without the muxer lock).
+func verifViewOnce(mode int) {
 	verifPartLog, verifInitLog, verifMediaLog, verifMultiLog, verifTSLog = nil, nil, nil, nil, nil
 	if verifSymbolic() {
 		verifFSReset()
@@ -27,18 +48,17 @@ func VerifH_C08_view() {
 	}
 	var resp *verifRW
 	var done atomic.Bool
-	if verifSymbolic() {
+	switch mode {
+	case 0:
 		go func() {
 			resp = verifGet(m, sid+"_stream.m3u8")
 			done.Store(true)
 		}()
 		wr.writeIDR(int64(90000 * (1 + 2*verifChoice("racestep", 2)))) // rotation (possibly with a longer segment: target duration grows), racing the request
 		verifQuiesce()
-	} else {
-		// native replay: force "request is about to generate the playlist while the writer is in the middle of
-		// the rotation". The request is parked at the entry of the stream's playlist generator; the writer is
-		// parked at the scheduling point inside rotateSegments. In a correct muxer the generator runs under the
-		// muxer lock, so the writer cannot get there and the wait below simply times out.
+	case 1:
+		// In a correct muxer the generator runs under the muxer lock, so the writer cannot get to its scheduling
+		// point and the wait below simply times out.
 		st := m.streams[0]
 		orig := st.generateMediaPlaylist
 		atGen := make(chan struct{})
@@ -71,6 +91,45 @@ func VerifH_C08_view() {
 		case <-time.After(300 * time.Millisecond):
 		}
 		close(release)
+		<-reqDone
+		<-wDone
+	case 2:
+		// In a correct muxer the callback is invoked with the muxer lock held: the request blocks until the
+		// callback gives up waiting and then sees the completed rotation.
+		inCb := make(chan struct{})
+		cbRelease := make(chan struct{})
+		var once sync.Once
+		for _, st := range m.streams {
+			st.onEncodeError = func(error) {
+				once.Do(func() {
+					close(inCb)
+					select {
+					case <-cbRelease:
+					case <-time.After(400 * time.Millisecond):
+					}
+				})
+			}
+		}
+		racestep := verifChoice("racestep", 2)
+		wDone := make(chan struct{})
+		go func() { wr.writeIDR(int64(90000 * (1 + 2*racestep))); close(wDone) }()
+		reqDone := make(chan struct{})
+		request := func() {
+			resp = verifGet(m, sid+"_stream.m3u8")
+			done.Store(true)
+			close(reqDone)
+		}
+		select {
+		case <-inCb:
+			go request()
+			select {
+			case <-reqDone:
+			case <-time.After(300 * time.Millisecond):
+			}
+			close(cbRelease)
+		case <-wDone: // the rotation did not call back (the target duration did not grow)
+			go request()
+		}
 		<-reqDone
 		<-wDone
 	}
